@@ -74,7 +74,7 @@ func Concrete(e jrn.Entry) journal.Trip {
 	t := journal.Trip{
 		TripUID:             jrn.UIDString(e.Uid),
 		TripID:              jrn.TripIDString(e.Pfx, e.Sfx),
-		RouteID:             "R" + strconv.Itoa(e.Route),
+		RouteID:             jrn.RoutePfx + strconv.Itoa(e.Route),
 		DirectionID:         gtfs.DirectionID(e.Dir),
 		StartTime:           jrn.Tm(e.Start),
 		IsAssigned:          e.Assigned,
@@ -85,18 +85,18 @@ func Concrete(e jrn.Entry) journal.Trip {
 		NumScheduleRewrites: e.NRew,
 	}
 	if e.VehId != 0 {
-		t.VehicleID = "V" + strconv.Itoa(e.VehId)
+		t.VehicleID = jrn.VehPfx + strconv.Itoa(e.VehId)
 	}
 	for _, s := range e.Sts {
 		st := journal.StopTime{
-			StopID:        "S" + strconv.Itoa(s.Stop),
+			StopID:        jrn.StopPfx + strconv.Itoa(s.Stop),
 			ArrivalTime:   optPtr(s.Arr),
 			DepartureTime: optPtr(s.Dep),
 			LastObserved:  jrn.Tm(s.LastObs),
 			MarkedPast:    optPtr(s.Marked),
 		}
 		if s.Track.IsSome() {
-			x := "T" + strconv.Itoa(s.Track.Val())
+			x := jrn.TrackPfx + strconv.Itoa(s.Track.Val())
 			st.Track = &x
 		}
 		t.StopTimes = append(t.StopTimes, st)
@@ -209,7 +209,7 @@ func decode(x *journal.CsvExport) (Tables, error) {
 	for _, m := range trips {
 		pfx, sfx := jrn.ProjTripID(m["trip_id"])
 		row := TripRow{
-			Uid: jrn.ProjUID(m["trip_uid"]), Pfx: pfx, Sfx: sfx, Route: cellNum("R", m["route_id"]),
+			Uid: jrn.ProjUID(m["trip_uid"]), Pfx: pfx, Sfx: sfx, Route: cellNum(jrn.RoutePfx, m["route_id"]),
 			Start: cellTime(m["start_time"]), LastObs: cellTime(m["last_observed"]), Marked: cellOptTime(m["marked_past"]),
 			NUpd: cellInt(m["num_updates"]), NChg: cellInt(m["num_schedule_changes"]), NRew: cellInt(m["num_schedule_rewrites"]),
 		}
@@ -226,7 +226,7 @@ func decode(x *journal.CsvExport) (Tables, error) {
 		if v := m["vehicle_id"]; v == "" {
 			row.VehId = 0
 		} else {
-			row.VehId = cellNum("V", v)
+			row.VehId = cellNum(jrn.VehPfx, v)
 		}
 		t.Trips = append(t.Trips, row)
 	}
@@ -236,12 +236,12 @@ func decode(x *journal.CsvExport) (Tables, error) {
 	}
 	for _, m := range stops {
 		row := StopRow{
-			Uid: jrn.ProjUID(m["trip_uid"]), Stop: cellNum("S", m["stop_id"]), Arr: cellOptTime(m["arrival_time"]),
+			Uid: jrn.ProjUID(m["trip_uid"]), Stop: cellNum(jrn.StopPfx, m["stop_id"]), Arr: cellOptTime(m["arrival_time"]),
 			Dep: cellOptTime(m["departure_time"]), LastObs: cellTime(m["last_observed"]), Marked: cellOptTime(m["marked_past"]),
 			Track: abs.None[int](),
 		}
 		if m["track"] != "" {
-			row.Track = abs.Some(cellNum("T", m["track"]))
+			row.Track = abs.Some(cellNum(jrn.TrackPfx, m["track"]))
 		}
 		t.Stops = append(t.Stops, row)
 	}
@@ -279,12 +279,15 @@ func RunJournal(id string, j *journal.Journal, w *abs.Writer) (crashes []jrn.Cra
 	}
 	rec.After = proj(j)
 	rec.DeepEqual = reflect.DeepEqual(ref, j)
+	// export again (and another journal in between) BEFORE reading the first export: its bytes must stay what they were
+	other := &journal.Journal{Trips: []journal.Trip{{TripUID: "0_other", TripID: "000000_other", StopTimes: []journal.StopTime{{StopID: "zzz"}}}}}
+	_, _ = other.ExportToCsv()
+	x2, err2 := j.ExportToCsv()
 	if rec.Tables, err = decode(x); err != nil {
 		rec.ParseError = err.Error()
 	}
-	x2, err := j.ExportToCsv()
-	if err != nil {
-		rec.ParseError = "second ExportToCsv returned an error: " + err.Error()
+	if err2 != nil {
+		rec.ParseError = "second ExportToCsv returned an error: " + err2.Error()
 	} else if rec.Tables2, err = decode(x2); err != nil {
 		rec.ParseError = "second export: " + err.Error()
 	}
